@@ -289,8 +289,13 @@ func (st *State) modelValue(t *Term) (uint64, bool) {
 }
 
 func (st *State) concretiseDec(t *Term, what string) uint64 {
+	capN := st.eng.cfg.ConcCap
+	if what == "formatting" {
+		// a symbolic number rendered into a string: enumerate a few values only
+		capN = 3
+	}
 	for n := 0; ; n++ {
-		if n > st.eng.cfg.ConcCap {
+		if n > capN {
 			panic(fuelErr{"concretisation cap exceeded for " + what})
 		}
 		if st.pos < len(st.prefix) {
